@@ -35,6 +35,9 @@ def snapshot(order, txn):
         "size": getattr(ot, "size", None),
         "liability": getattr(ot, "liability", None),
         "bet_id": order.bet_id,
+        # of a placed order (never of a new one or of one already marked a violation, which may be re-marked)
+        "violation_msg": order.violation_msg if order.status is not None and order.status.name != "VIOLATION" else None,
+        "order_client": getattr(order.client, "username", None) if order.status is not None and order.status.name != "VIOLATION" else None,
         "complete": order.complete,
         "trade_status": order.trade.status.name,
         "trade_log": tuple(x.name for x in order.trade.status_log),
